@@ -1139,7 +1139,7 @@ def exec_gen(sc, variant, res, check=True, retain=True):
         purity("clue_penalty callback")
         return sc["clue_penalty"] * (Hi(solver_cfg.get("subseed", 0), pdigest(problem), "pen") % 3)
 
-    saved = (srandom._use_deterministic_prng, dr._rng, pyrandom.getstate())
+    saved = (core.snapshot_module_state(srandom), core.snapshot_module_state(dr), pyrandom.getstate())
     try:
         seam.install()
         pyrandom.seed(sc["py_seed"] if variant == 0 else sc["py_seed2"])
@@ -1169,9 +1169,10 @@ def exec_gen(sc, variant, res, check=True, retain=True):
             if sc["use_builder_pattern"]:
                 # generate_problem builds the neighbour generator itself; the initial problem is
                 # recomputed here only for the fake solver's clue counter (same PRNG state restored)
-                st = (srandom._use_deterministic_prng, copy.deepcopy(dr._rng), pyrandom.getstate())
+                st = (core.snapshot_module_state(srandom), core.snapshot_module_state(dr), pyrandom.getstate())
                 init0, _ = G.build_neighbor_generator(build_pattern(pat_json, G))
-                srandom._use_deterministic_prng, dr._rng = st[0], st[1]
+                core.restore_module_state(srandom, st[0])
+                core.restore_module_state(dr, st[1])
                 pyrandom.setstate(st[2])
                 initial_flat = flatten(init0)
                 result = G.generate_problem(fake_solver, builder_pattern=pattern, **kwargs)
@@ -1212,7 +1213,8 @@ def exec_gen(sc, variant, res, check=True, retain=True):
         purity("end of run")
     finally:
         seam.restore()
-        srandom._use_deterministic_prng, dr._rng = saved[0], saved[1]
+        core.restore_module_state(srandom, saved[0])
+        core.restore_module_state(dr, saved[1])
         pyrandom.setstate(saved[2])
     if check:
         # returned problem must be one the solver saw, reported sat, and uniqueness accepted
